@@ -80,7 +80,7 @@ func (r *renderer) ind() {
 	}
 }
 
-var comments = []string{"-- c", "--[[ block ]]", "--[==[ ]] ]==]", "--[[ two\nlines ]]", "--", "-- ]] [[ \" '", "--[=[ x\n\ny ]=]"}
+var comments = []string{"-- c", "--[[ block ]]", "--[==[ ]] ]==]", "--[[ two\nlines ]]", "--", "-- ]] [[ \" '", "--[=[ x\n\ny ]=]", "--[=", "--[==", "--[", "--[=x"}
 
 // pre emits optional comment/blank lines before a statement.
 func (r *renderer) pre() {
